@@ -174,7 +174,7 @@ Verdict run_case(Case const& c, Ctx& ctx)
 	}
 	bool inconclusive = false;
 	std::vector<std::vector<Expect>> expects; std::vector<bool> expect_eof, expect_served;
-	int bind_after_stop = -2, connect_after_stop = -2;
+	int bind_after_stop = -2, connect_after_stop = -2; bool in_wedge_scope = false;
 	{
 		World w(topo); R.w = &w;
 		R.server.reset(new sim::http_server(w.node(0), 8080, R.keepalive ? sim::http_server::keep_alive : 0));
@@ -207,8 +207,7 @@ Verdict run_case(Case const& c, Ctx& ctx)
 		// known finding (known_findings.txt, C16): a client that hangs up while the server is blocked writing a response
 		// larger than the congestion window wedges the server for good (the simulated TCP has no reset, the server is
 		// not reading, so it never sees the EOF). Excluded by construction unless --x-strict.
-		if (!ctx.opt.extra.count("strict"))
-			for (std::size_t i = 0; i < R.clients.size(); ++i)
+		for (std::size_t i = 0; i < R.clients.size(); ++i)
 			{
 				Client& cl = *R.clients[i];
 				if (cl.spec.early < 0) continue;
@@ -218,7 +217,11 @@ Verdict run_case(Case const& c, Ctx& ctx)
 					consumed += request_text(q, k++).size();
 					if (consumed > std::size_t(cl.spec.early)) break;
 					long long const body = q.kind == 1 ? R.data_size : q.kind == 2 ? q.b - q.a + 1 : 0;
-					if (body >= 1400) { ++ctx.excluded["C16 known finding: client hangs up while a large response is being written"]; ctx.label("excluded_known_wedge"); cl.spec.early = -1; }
+					if (body >= 1400)
+					{
+						in_wedge_scope = true;
+						if (!ctx.opt.extra.count("strict")) { ++ctx.excluded["C16 known finding: client hangs up while a large response is being written"]; ctx.label("excluded_known_wedge"); cl.spec.early = -1; }
+					}
 				}
 			}
 		// ---- reference model
@@ -332,7 +335,7 @@ Verdict run_case(Case const& c, Ctx& ctx)
 	if (!R.keepalive) ctx.label("keepalive_off");
 	for (auto& cl : R.clients) { if (cl->spec.early >= 0) ctx.label("early_client_close"); for (auto const& q : cl->spec.reqs) { if (q.kind >= 6) ctx.label("malformed"); if (q.kind == 5) ctx.label("stall"); if (q.kind == 2) ctx.label("range"); } }
 	v.nontrivial = (R.cut_in_header && multi) || successor_after_closed;
-	if (!R.err.empty()) { Verdict f = Verdict::fail("http_server", R.err); f.nontrivial = v.nontrivial; return f; }
+	if (!R.err.empty()) { Verdict f = Verdict::fail(in_wedge_scope && ctx.opt.extra.count("strict") ? "http_server_wedge_scope" : "http_server", R.err); f.nontrivial = v.nontrivial; return f; }
 	return v;
 }
 
